@@ -15,7 +15,9 @@ RULE = (
     "schema vs subclass vs unrelated schema; thorough adds depth-2 compositions) are turned into Parent/Child classes and "
     "run through check_types; for every ACCEPTED pair each corpus value v with Child(f=v) valid must satisfy "
     "Parent.parse_raw(bytes(Child(f=v))) (soundness of acceptance only; a conservative rejection is fine); @override-"
-    "declared pairs must be accepted; (c) a child loosening the parent's extra-field policy or adding fields under "
+    "declared pairs must be accepted; every pair also as three-level chains (Optional parent made mandatory / re-annotated; the "
+    "override sitting in an intermediate class from which the checked child inherits the field untouched, with the plugin "
+    "markers on the outer two classes / all / none): acceptance of the leaf must be sound against every ancestor; (c) a child loosening the parent's extra-field policy or adding fields under "
     "extra=forbid must be refused. non-trivial = accepted pair with >=1 valid child value; distinct = the type pair."
 )
 ANCHORS = ["src/metador_core/schema/core.py", "src/metador_core/util/typing.py", "src/metador_core/schema/decorators.py", "src/metador_core/schema/pg.py"]
@@ -103,6 +105,16 @@ def make_chain(P, C, mode):
     _ctr[0] += 1
     mk = type(MetadataSchema)
     Grand = mk(f"Gra{_ctr[0]}", (MetadataSchema,), {"__annotations__": {"f": P}, "__module__": __name__})
+    if mode.startswith("inherit"):
+        # Grand(f: P) <- Mid(f: C, the override under test) <- Child (inherits f untouched); the classes marked as plugins
+        # (inner Plugin class, as registered schemas carry it) vary: only the outer two / all / none
+        def plug(n):
+            return {"Plugin": type("Plugin", (), {"name": f"c13.{n}{_ctr[0]}", "version": (0, 1, 0)})}
+        marks = {"inherit-outer-plugins": (1, 0, 1), "inherit-all-plugins": (1, 1, 1), "inherit-no-plugins": (0, 0, 0)}[mode]
+        Grand = mk(f"Gra{_ctr[0]}", (MetadataSchema,), {"__annotations__": {"f": P}, "__module__": __name__, **(plug("g") if marks[0] else {})})
+        Par = mk(f"Mid{_ctr[0]}", (Grand,), {"__annotations__": {"f": C}, "__module__": __name__, **(plug("m") if marks[1] else {})})
+        Chi = mk(f"Chi{_ctr[0]}", (Par,), {"__annotations__": {}, "__module__": __name__, **(plug("c") if marks[2] else {})})
+        return Grand, Par, Chi
     if mode == "mandatory":
         Par = make_mandatory("f")(mk(f"Par{_ctr[0]}", (Grand,), {"__annotations__": {}, "__module__": __name__}))
     else:
@@ -140,8 +152,8 @@ def check_chain(acc, pn, P, cn, C, mode):
                 except Exception as e:
                     lvl = "parent" if anc is Par else "grandparent"
                     acc.violation(f"unsound-override-3level:{mode}:{pn}<-{cn}",
-                                  f"three levels (grandparent f: {pn}; parent makes f {'mandatory by @make_mandatory' if mode == 'mandatory' else 'non-optional by re-annotation'}; "
-                                  f"child f: {cn}): check_types accepts the child, but its valid instance {b.decode().strip()} "
+                                  f"three levels (grandparent f: {pn}; " + (f"intermediate class re-annotates f: {cn}; child inherits f untouched; plugin markers: {mode}" if mode.startswith("inherit") else
+                                  f"parent makes f {'mandatory by @make_mandatory' if mode == 'mandatory' else 'non-optional by re-annotation'}; child f: {cn}") + "): check_types accepts the child, but its valid instance {b.decode().strip()} "
                                   f"({'f omitted' if v is OMIT else repr(v)}) is rejected by the {lvl} ({type(e).__name__})",
                                   {"parent": pn, "child": cn, "mode": mode, "value": None if v is OMIT else json.loads(json.dumps(v))})
                     return
@@ -287,6 +299,8 @@ def run_unit(u, acc):
             if u["parent"].startswith("Opt["):
                 for mode in ("mandatory", "reannotate"):
                     check_chain(acc, u["parent"], P[u["parent"]], cn, P[cn], mode)
+            for mode in ("inherit-outer-plugins", "inherit-all-plugins", "inherit-no-plugins"):
+                check_chain(acc, u["parent"], P[u["parent"]], cn, P[cn], mode)
         if u["parent"] == "Int":
             acc.sample({"parent_type": "Int", "child_types": sorted(P)[:10], "corpus_head": [repr(v) for v in CORPUS[:12]]})
     elif u["kind"] == "ancestors":
@@ -297,7 +311,8 @@ def run_unit(u, acc):
 
 def inconclusive(cov):
     c = cov["counters"]
-    return [f"monitor counter {k} is zero" for k in ("pairs.accepted", "pairs.rejected", "values_checked", "ancestor_parses", "extra_policy_checks", "declared_overrides_accepted", "chains.mandatory.accepted", "chains.mandatory.rejected", "chains.reannotate.rejected") if not c.get(k)]
+    return [f"monitor counter {k} is zero" for k in ("pairs.accepted", "pairs.rejected", "values_checked", "ancestor_parses", "extra_policy_checks", "declared_overrides_accepted", "chains.mandatory.accepted", "chains.mandatory.rejected", "chains.reannotate.rejected",
+                                                        "chains.inherit-outer-plugins.accepted", "chains.inherit-outer-plugins.rejected", "chains.inherit-all-plugins.rejected", "chains.inherit-no-plugins.rejected") if not c.get(k)]
 
 
 def replay(case, acc):
